@@ -35,6 +35,9 @@ class parser {
 	} state_;
 	
 	unsigned bracket_counter_;
+	// where the line end was met: 0 - ordinary text, 1 - inside a quoted string, 2 - inside a comment;
+	// folding (CRLF followed by SP/HT) goes on there, a line end that is not a fold ends the header anyway
+	int line_end_from_;
 
 	std::vector<char> *body_;
 	unsigned *body_ptr_;
@@ -97,6 +100,7 @@ public:
 	parser(std::vector<char> &body,unsigned &body_ptr) :
 		state_(idle),
 		bracket_counter_(0),
+		line_end_from_(0),
 		body_(&body),
 		body_ptr_(&body_ptr),
 		pbase_(0),
@@ -108,6 +112,7 @@ public:
 	parser(char const *&pbase,char const *&pptr,char const *&epptr) :
 		state_(idle),
 		bracket_counter_(0),
+		line_end_from_(0),
 		body_(0),
 		body_ptr_(0),
 		pbase_(&pbase),
@@ -121,6 +126,7 @@ public:
 	{
 		state_ = idle;
 		bracket_counter_ = 0;
+		line_end_from_ = 0;
 		header_.clear();
 		pbase_ = 0;
                 pptr_ = 0;
@@ -187,11 +193,19 @@ public:
 					// Convert LWS to space as required by
 					// RFC, so remove last CRLF
 					header_.resize(header_.size() - 2);
-					state_=input_observed;
+					if(line_end_from_ == 1)
+						state_=quote_expected;
+					else if(line_end_from_ == 2)
+						state_=closing_bracket_expected;
+					else
+						state_=input_observed;
 					break;
 				}
 				ungetc(c);
 				header_.resize(header_.size()-2);
+				// a quoted string or a comment that is still open ends with its line
+				bracket_counter_ = 0;
+				line_end_from_ = 0;
 				state_=idle;
 #ifdef DEBUG_HTTP_PARSER
 				std::cerr<<"["<<header_<<"]"<<std::endl;
@@ -200,6 +214,7 @@ public:
 			case input_observed:
 				switch(c) {
 				case '\r':
+					line_end_from_=0;
 					state_=lf_exptected;
 					break;
 				case '"':
@@ -215,6 +230,10 @@ public:
 				break;
 			case quote_expected:
 				switch(c) {
+				case '\r':
+					line_end_from_=1;
+					state_=lf_exptected;
+					break;
 				case '"':
 					state_=input_observed;
 					break;
@@ -230,6 +249,10 @@ public:
 				break;
 			case closing_bracket_expected:
 				switch(c) {
+				case '\r':
+					line_end_from_=2;
+					state_=lf_exptected;
+					break;
 				case ')':
 					bracket_counter_--;
 					if(bracket_counter_==0)
